@@ -1,6 +1,7 @@
 //! C03: ids of the real `BPETokenizer::tokenize(s, true)` against the model
 //! (repaired heap loop) and the canonical reference (`check_C03`).
-//! input  = (tbl text)   tbl: byte strings in merge-id order, text: code points
+//! input  = (tbl text) | (tbl text (keep))   tbl: byte strings in merge-id order, text: code points, keep: the tokenizer
+//!          is built with max_vocab_size = 256 + #special + keep, i.e. it keeps the first `keep` merges (C03_Limit.v)
 //! output = ((id ...) fb lv)   or () when tokenize / the constructor returns an error;
 //!          fb = the bytes of the merge file the crate's `save` wrote and the tokenizer was built from,
 //!          lv = ((id key) ...) = the real `MergeOps::load` of that file (the model decodes fb itself)
@@ -16,16 +17,19 @@ struct C03 {
     /// generator state: current table / alphabet and how many texts are still to be drawn for it
     cur: Option<(Table, Vec<&'static str>)>,
     left: usize,
-    /// tokenizer cache for `run`
-    cache: Option<(Table, BPETokenizer, MergeFile)>,
+    keep: Option<usize>,
+    /// tokenizer cache for `run` (table, kept merges)
+    cache: Option<((Table, Option<usize>), BPETokenizer, MergeFile)>,
 }
 
 impl C03 {
-    fn tokenizer(&mut self, table: &Table) -> Option<(&BPETokenizer, &MergeFile)> {
-        let hit = matches!(&self.cache, Some((t, _, _)) if t == table);
+    fn tokenizer(&mut self, table: &Table, keep: Option<usize>) -> Option<(&BPETokenizer, &MergeFile)> {
+        let hit = matches!(&self.cache, Some(((t, k), _, _)) if t == table && *k == keep);
         if !hit {
-            let (tok, mf) = build_tokenizer_file(DIR, table, None, None, plain_special(), false);
-            self.cache = Some((table.clone(), tok.ok()?, mf));
+            let special = plain_special();
+            let limit = keep.map(|k| 256 + special.tokens.len() + k);
+            let (tok, mf) = build_tokenizer_file(DIR, table, None, limit, special, false);
+            self.cache = Some(((table.clone(), keep), tok.ok()?, mf));
         }
         self.cache.as_ref().map(|c| (&c.1, &c.2))
     }
@@ -36,11 +40,16 @@ impl Prop for C03 {
         if self.left == 0 || self.cur.is_none() {
             self.cur = Some(gen_table(rng));
             self.left = rng.range(8, 40);
+            // one table in three is used under a vocabulary limit that cuts it (0 ..= len + 1 merges kept)
+            self.keep = if rng.chance(1, 3) { Some(rng.below(self.cur.as_ref().unwrap().0.len() + 2)) } else { None };
         }
         self.left -= 1;
         let (table, alpha) = self.cur.as_ref().unwrap();
         let text = gen_text(rng, alpha, table);
-        Val::L(vec![table_val(table), Val::str(&text)])
+        match self.keep {
+            Some(k) => Val::L(vec![table_val(table), Val::str(&text), Val::L(vec![Val::I(k as i64)])]),
+            None => Val::L(vec![table_val(table), Val::str(&text)]),
+        }
     }
 
     fn exhaustive(&mut self, _tier: Tier) -> Vec<Val> {
@@ -97,20 +106,34 @@ impl Prop for C03 {
 
     fn run(&mut self, input: &Val) -> Option<(Val, Vec<String>)> {
         let l = input.as_l()?;
-        if l.len() != 2 {
+        if l.len() != 2 && l.len() != 3 {
             return None;
         }
         let table = val_table(&l[0])?;
         let text = val_text(&l[1])?;
-        let (tok, mf) = self.tokenizer(&table)?;
+        let keep = match l.get(2) {
+            None => None,
+            Some(k) => match &k.as_l()?[..] {
+                [Val::I(k)] if *k >= 0 && *k < 100_000 => Some(*k as usize),
+                _ => return None,
+            },
+        };
+        let eff: Table = match keep {
+            Some(k) => table.iter().take(k).cloned().collect(),
+            None => table.clone(),
+        };
+        let (tok, mf) = self.tokenizer(&table, keep)?;
         let t2 = text.clone();
         let (fb, lv) = (mf.bytes_val(), mf.loaded_val());
         let out = guard(std::panic::AssertUnwindSafe(|| match tok.tokenize(&t2, true) {
             Ok(t) => Val::L(vec![Val::list(t.token_ids.iter(), |i| Val::I(*i as i64)), fb, lv]),
             Err(_) => Val::L(vec![]),
         }));
-        let (nwords, merges, stale) = text_stats(&table, &text);
+        let (nwords, merges, stale) = text_stats(&eff, &text);
         let mut tags = vec![];
+        if keep.is_some() {
+            tags.push(if keep.unwrap() < table.len() { "limit-cuts".to_string() } else { "limit".to_string() });
+        }
         if merges > 0 {
             tags.push("merge".to_string());
         }
@@ -131,10 +154,14 @@ impl Prop for C03 {
 
     fn canon(&mut self, input: &Val) -> Option<Val> {
         let l = input.as_l()?;
-        if l.len() != 2 {
+        if l.len() != 2 && l.len() != 3 {
             return None;
         }
-        Some(Val::L(vec![canon_table(&l[0])?, canon_text(&l[1])?]))
+        let mut v = vec![canon_table(&l[0])?, canon_text(&l[1])?];
+        if let Some(k) = l.get(2) {
+            v.push(k.clone());
+        }
+        Some(Val::L(v))
     }
 
     fn selfcheck(&mut self) -> Vec<String> {
@@ -145,5 +172,5 @@ impl Prop for C03 {
 }
 
 fn main() {
-    main_loop(C03 { cur: None, left: 0, cache: None });
+    main_loop(C03 { cur: None, left: 0, keep: None, cache: None });
 }
